@@ -15,14 +15,13 @@ RULE = (
     "lower-only, upper-only, multi-item; fixed: two exact widths} x allowed-character ranges {none, 32...126, two-item "
     "digits+lower-case, open 33...} x formats {delimited, fixed, excel, ods} x cells {empty, 1-3 blanks, shortest and "
     "longest allowed stem, one shorter / one longer, a stem with one disallowed character at every position, fixed: "
-    "blank-padded stems}; type rules are chosen so that the undisturbed stem satisfies them. A case is (declaration, "
+    "blank-padded stems, cells of / padded with tabs, no-break spaces, ideographic spaces and unit separators}; type rules are chosen so that the undisturbed stem satisfies them. A case is (declaration, "
     "format, allowed range, cell), distinct by digest; every case sits on a guard and counts as non-trivial. A second "
     "part reads the same cells through Cid.read + cutplace.rows(on_error='yield') and checks that each rejection "
     "names the field."
 )
 ASSUMPTIONS = [
-    "guard model of cpverif/models/fieldmodel.py; blank-only fixed cells while blank is not an allowed character and "
-    "white space other than blanks in fixed cells are unjudged",
+    "guard model of cpverif/models/fieldmodel.py; only the blank (U+0020) is padding of fixed cells",
 ]
 
 LENGTHS = ["", "3", "2...", "...4", "1...2, 4...5"]
@@ -97,6 +96,14 @@ def cells_for(type_name, kind, length_text, allowed, rng_unused=None):
         w = int(length_text)
         cells.append(" " * w)
         cells.append(" " * (w + 1))
+        # white space that is no blank: such cells are not empty, and such characters are part of the value
+        for other in ("\t", "\xa0", "\u3000", "\x1f"):
+            cells.append(other * w)
+            cells.append(other + " " * (w - 1))
+            stem = stem_for(type_name, max(1, w - 2))
+            if stem is not None and len(stem) == w - 2:
+                cells.append(other + stem + " ")
+                cells.append(stem + other + " ")
     return rule, cells
 
 
